@@ -115,7 +115,7 @@ def run_parse(out, tier, seed, want):
 
 def validate_traces(out, trace_path, chunk=400):
     """TLC trace validation, a few hundred recorded parses per JVM."""
-    lines = open(trace_path).read().splitlines()
+    lines = [l for l in open(trace_path).read().split("\n") if l]
     d = os.path.dirname(trace_path)
     nacc = 0
     for c0 in range(0, len(lines), chunk):
